@@ -2210,7 +2210,7 @@ rfbProcessExtendedServerCutTextData(rfbClientPtr cl, uint32_t flags, const char 
             free(buf);
             buf = NULL;
         }
-        if (size > (1 << 20)) {
+        if (size > (1 << 20) + 1) { /* a text of up to 1 MB plus its terminating NUL */
             rfbLog("rfbProcessExtendedServerCutTextData: too big requested: %u B > 1 MB\n", (unsigned int)size);
             inflateEnd(&stream);
             rfbCloseClient(cl);
